@@ -280,6 +280,8 @@ def _check(case):
         try:
             m2.solve_steady(split_into_blocks=other)
             l2 = m2.get_steady_levels()
+            if spec["log"] and any(not (1e-6 < pick(l2, nm, v) < 1e6) for v in range(nv) for nm in names):
+                raise ArithmeticError("the other run ended in a near-zero pseudo-solution (see above): not compared")
             for v in range(nv):
                 for nm in names:
                     a, b = pick(levels, nm, v), pick(l2, nm, v)
